@@ -389,6 +389,10 @@ class NDNApp:
             else:
                 valid = ValidResult.PASS
             if valid == ValidResult.PASS or valid == ValidResult.ALLOW_BYPASS:
+                if self._fib.get(trie_step.key) is not node:
+                    # The handler was detached while the Interest was being checked
+                    self.logger.warning('Handler detached: %s', name)
+                    return
                 node.callback(name, app_param, reply, context)
             else:
                 self.logger.warning('Drop unvalidated Interest: %s', name)
